@@ -27,3 +27,4 @@ def run(ctx):
     D.r11_3_pyyaml_tables(ctx, 'R10.6')
     from . import round3 as R3
     R3.r03_10_registered_is_given(ctx, 'R10.7')
+    S.r01_2_gate(ctx)
